@@ -24,7 +24,7 @@ From GV Require Import Base.Outcome Model.GState Model.Query Model.Dijkstra.
 From GV Require Import Spec.ShortestPathDef Spec.ShortestPathCheck Proofs.ShortestPathOk.
 From GV Require Import Base.AMap Proofs.DijkstraLoopOk Proofs.DijkstraModelOk Proofs.DijkstraNamesOk.
 From GV Require Import Model.Creation Spec.History Spec.ShortestPathRel Spec.EdgeStoreGraph.
-From GV Require Import Proofs.WFDefs Proofs.HistoryOk Proofs.DijkstraWF Proofs.DijkstraWFExamples.
+From GV Require Import Proofs.WFDefs Proofs.HistoryOk Proofs.DijkstraWF Proofs.DijkstraWFExamples Proofs.PathsStoreOnly.
 Import ListNotations.
 
 (* ---------------------------------------------------------------- (A) the model *)
@@ -264,6 +264,26 @@ Section Reachable.
          (target = None \/ target = Some y) ->
          exists info, lookup teqb y m = Some info /\ sp_distance info = d).
   Proof. exact (wf_single_source_answer teqb tltb teqb_spec tltb_total). Qed.
+
+  (* the all-paths clause in exact form (first_only = false, with_paths = true, positive arcs):
+     the path list of every reported name is duplicate free ON NODE NAMES and its members are
+     exactly the name forms of the shortest paths of the edge-store graph from the source *)
+  Theorem C04_reachable_single_source_paths_exact : forall (g : gstate) (weighted : bool)
+      (source : T) (target : option T) (cutoff : option Q) (si : nat),
+    WF g -> small_adj g -> (weighted = true -> weights_nonneg g) ->
+    a_positive (edge_arc teqb g weighted) ->
+    name_at g si = Some source ->
+    (forall t, target = Some t -> In t (names g)) ->
+    cutoff_exceeded cutoff 0 = false ->
+    exists m,
+      single_source teqb g weighted source target cutoff false true = Ok m /\
+      forall y info, lookup teqb y m = Some info ->
+        exists j, name_at g j = Some y /\
+          a_is_dist (edge_arc teqb g weighted) (number_of_nodes g) si j (sp_distance info) /\
+          NoDup (sp_paths info) /\
+          forall p', In p' (sp_paths info) <->
+                     exists p, names_of g p p' /\ a_SP (edge_arc teqb g weighted) (number_of_nodes g) si j p.
+  Proof. exact (wf_single_source_paths_exact teqb tltb teqb_spec tltb_total). Qed.
 
   (* positivity of the arcs (premise of the all-paths clause) from the stored weights *)
   Theorem C04_arcs_positive : forall (g : gstate) (weighted : bool),
